@@ -101,7 +101,8 @@ def case_cells(chunk):
         sc = max(base.max(), 1e-300)
         F = {}
         for wd in (0.0, 90.0, 180.0, 270.0, 30.0, 137.5, 360.0):
-            gx, gy, f = _call(zm, z0, ws, us, L, sv, dom, res, [0.0, 0.0], wd=wd)
+            # the direction as keyword or as the documented tenth positional argument, alternating
+            gx, gy, f = _call(zm, z0, ws, us, L, sv, dom, res, [0.0, 0.0], wd=wd) if int(wd) % 20 else _call(zm, z0, ws, us, L, sv, dom, res, [0.0, 0.0], wd)
             n += 1
             F[wd] = f
             xr, yr = km.rotate(gx, gy, wd)
@@ -278,6 +279,42 @@ def case_z0(case):
                 if not np.allclose(r, got, rtol=1e-12, atol=0, equal_nan=True):
                     v.append({"sub": "z0-rotation", "sig": "z0-rotation", "msg": "estimateZ0 (window %d, dense lattice, zm=%g as %s) changes under a common rotation by %d degrees (max rel. change %.2e)" % (win, zmv, ztype, rot, np.nanmax(np.abs(r / got - 1)))})
                     break
+        # data gaps and rejected records: a sparse series (one record every 25 degrees, so a +-10 degree window holds
+        # one record and a +-22 degree window at most two) in which single records are unusable - a NaN wind speed (logger
+        # gap) or, for the tall mast, an inversion above 1000 m that the function discards.  Every OTHER record still gets
+        # the median over its own window, wherever the unusable record sits on the circle.
+        swd = np.arange(3.5, 360.0, 25.0)
+        nsp = len(swd)
+        szm = np.full(nsp, zmv).astype(zm.dtype)
+        sus = 0.25 + (np.arange(nsp) % 4) * 0.1
+        sL = np.array([(-30.0, -400.0, 1e9, 150.0, 40.0)[i % 5] for i in range(nsp)])
+        for badpos, kind in itertools.product((0, 1, nsp // 2, nsp - 1), ("nan-wind", "discarded")):
+            sws = 2.0 + (np.arange(nsp) % 5) * 0.7
+            sLb = sL.copy()
+            if kind == "nan-wind":
+                sws[badpos] = np.nan
+            else:
+                if zmv < 30.0:
+                    continue
+                sws[badpos], sLb[badpos] = 0.1, -0.5  # inverted log law gives a roughness length above 1000 m
+            for win in (10, 22):
+                with warnings.catch_warnings():
+                    warnings.simplefilter("ignore")
+                    got = estimateZ0(szm, sws, swd, sus, sLb, half_wd_win=win)
+                    want = _z0_oracle(zmv, sws, swd, sus, sLb, win)
+                    n += 1
+                    ok = np.allclose(got, want, rtol=1e-10, atol=0, equal_nan=True)
+                    rots_ok = True
+                    for rot in (90, 301):
+                        r = estimateZ0(szm, sws, (swd + rot) % 360.0, sus, sLb, half_wd_win=win)
+                        n += 1
+                        rots_ok = rots_ok and np.allclose(r, got, rtol=1e-12, atol=0, equal_nan=True)
+                if not ok:
+                    i = int(np.argmax(~np.isclose(got, want, rtol=1e-10, atol=0, equal_nan=True)))
+                    v.append({"sub": "z0-gaps", "sig": "z0-gaps/%s" % kind, "msg": "estimateZ0 (window %d, zm=%g as %s) on a sparse series whose record %d (%.1f deg) is unusable (%s): record %d at %.1f deg gets %r, the median over its own window is %r"
+                              % (win, zmv, ztype, badpos, swd[badpos], kind, i, swd[i], got[i], want[i])})
+                if not rots_ok:
+                    v.append({"sub": "z0-rotation", "sig": "z0-rotation/gaps", "msg": "estimateZ0 (window %d, zm=%g as %s) on a sparse series with an unusable record (%s at position %d) changes under a common rotation of all wind directions" % (win, zmv, ztype, kind, badpos)})
         for win in (22, 5):
             base = estimateZ0(zm, ws, rng_wd, us, L, half_wd_win=win)
             for rot in (1, 37, 90, 211, 359):
